@@ -1262,7 +1262,14 @@ func EvalProgram(progSrc string, files []InputFile, rootSelectors []string, stdo
 					if err != nil {
 						return &ev, err
 					}
-					rootCells = append(rootCells, cell)
+					// the selected value becomes the root by the ordinary copy rule,
+					// exactly as BEGINFILE { $ = selector } would store it: a missing
+					// member is a plain null, not a cell that later stores bring to life
+					rootCell, err := copyValue(cell, &Cell{})
+					if err != nil {
+						return &ev, RuntimeError{Message: err.Error(), Line: 1, SrcLine: strings.SplitN(rootSelector, "\n", 2)[0]}
+					}
+					rootCells = append(rootCells, rootCell)
 				}
 			} else {
 				rootCells = append(rootCells, NewCell(NewValue(rootValue)))
